@@ -37,7 +37,8 @@ ROOT = os.path.dirname(os.path.dirname(os.path.abspath(__file__)))
 REPO = "/repo"
 
 
-class CaseTimeout(Exception):
+class CaseTimeout(BaseException):
+    # BaseException: the library wraps "except Exception" around evaluations and would otherwise swallow / re-label the alarm
     pass
 
 
@@ -65,12 +66,13 @@ def atomica_frame(tb):
 
 def guarded_run(mod, case, timeout):
     """Run one case; convert escaping exceptions/hangs into violations (if atomica is on the stack)"""
-    signal.signal(signal.SIGALRM, _alarm)
-    signal.setitimer(signal.ITIMER_REAL, timeout)
+    # CPU time of this process, not wall time: a loaded machine must not turn a slow case into a "hang"
+    signal.signal(signal.SIGVTALRM, _alarm)
+    signal.setitimer(signal.ITIMER_VIRTUAL, timeout)
     try:
         out = mod.run_case(case)
     except CaseTimeout:
-        out = dict(states=0, transitions=0, nontrivial=False, violations=[dict(key="hang", what=f"case exceeded {timeout}s", detail=None)])
+        out = dict(states=0, transitions=0, nontrivial=False, violations=[dict(key="hang", what=f"case exceeded {timeout}s of CPU time", detail=None)])
     except HarnessError:
         raise
     except Exception as e:
@@ -81,7 +83,7 @@ def guarded_run(mod, case, timeout):
             raise HarnessError(f"harness exception on case {json.dumps(case, default=str)[:400]}\n{tb}")
         out = dict(states=0, transitions=0, nontrivial=False, violations=[dict(key=f"unexpected-exception:{type(e).__name__}@{fr}", what=f"unexpected {type(e).__name__}: {str(e)[:200]}", detail=tb[-1500:])])
     finally:
-        signal.setitimer(signal.ITIMER_REAL, 0)
+        signal.setitimer(signal.ITIMER_VIRTUAL, 0)
     return out
 
 
